@@ -2,8 +2,9 @@
 Deterministic scheduler offered to the code under test in place of `threading` (C17).
 
 Real OS threads underneath, but only the thread granted by the scheduler runs: every
-operation on a `Lock`, `Event`, `Thread` of this module (and every call of the fake audio
-backend, see fakeaudio.py) is a *yield point*: the calling thread publishes the pending
+operation on a `Lock`, `Event`, `Thread` of this module (every call of the fake audio
+backend, see fakeaudio.py, and — for the fine-grained cases — every pull of an item from a
+played iterable, `iter_point`) is a *yield point*: the calling thread publishes the pending
 operation and blocks on a private gate until the scheduler grants it.  A run is a function of
 the schedule (list of thread ids chosen among the enabled pending operations); beyond the end
 of the given schedule the default policy is non-preemptive (continue the running thread when it
@@ -386,6 +387,19 @@ def current_thread():
     s = _cur
     rec = s.me() if s is not None else None
     return rec.obj if rec is not None else None
+
+
+def iter_point(owner):
+    """Yield point inside a played iterable (props/c17.py `Hooked`): the thread that asks the
+    iterable for its next item publishes `it<k>.pull` (k = index of the asking Thread object) and
+    waits for the grant, so that a thread switch can happen in the middle of filling a chunk."""
+    s = _cur
+    if s is None or owner is not s:
+        return None
+    rec = s.me()
+    if rec is None or rec.finished:
+        return None
+    return s.op("it%s.pull" % ("?" if rec.tid == 0 else rec.tid - 1), _true, lambda: None)
 
 
 def backend_op(label, effect, owner):
